@@ -6,11 +6,14 @@
     generator position, and both calls leave the same state behind.
     Under the order laws (NumLaws: a total order on the numbers): the key utils.argmax returns attains the maximum
     of the dictionary, and every key listed before it holds a strictly smaller value (first among ties).
-    ..._partial: for linear and neighbourhood policies the same definitional structure is in the model
-    (imp_query computes predictions from the expectation rows) and is compared with the implementation by the
-    deep-copy twin relation; TreeBandit + EpsilonGreedy(epsilon>0) is excluded by the property. *)
+    EVERY policy combination (predict_is_argmax_all): linear, Radius/KNearest/LSH over either kind of learning policy,
+    Clusters, TreeBandit with UCB1 / ThompsonSampling - from the same state and generator, row by row, predict's arm is
+    the first arg-max of predict_expectations' dictionary, or the dictionary is all-NaN (empty neighbourhood: the
+    property's exception), and both calls leave the generator in the same position.  TreeBandit + EpsilonGreedy is the
+    excluded combination (its exploration step exists only inside predict); with epsilon = 0 it is covered by the
+    deep-copy twin relation on the implementation. *)
 From Coq Require Import List ZArith Bool Arith QArith Qcanon Permutation.
-From MW Require Import Num Assoc AssocFacts Rng Par CF CFInv CFClean CFForget CFSpec Matrix Lin Warm WarmInv Nbr NbrFacts NbrIndep LshFacts Clu Tree CellFacts Mab FacadeCF FacadeArms MoreFacts NumLaws CFAlg Sim Extra QcInst OrderFacts ExpIrrel LinInv FacadeLin LpInv NbrInv CluTreeInv FacadeAll ToyFacts.
+From MW Require Import Num Assoc AssocFacts Rng Par CF CFInv CFClean CFForget CFSpec Matrix Lin Warm WarmInv Nbr NbrFacts NbrIndep LshFacts Clu Tree CellFacts Mab FacadeCF FacadeArms MoreFacts NumLaws CFAlg Sim Extra QcInst OrderFacts ExpIrrel LinInv FacadeLin LpInv NbrInv CluTreeInv FacadeAll ToyFacts C09All C10All LinForget LinSim MatrixFacts LinSpec.
 Import ListNotations.
 
 Theorem C09_predict_is_first_argmax_of_expectations_partial :
@@ -27,6 +30,28 @@ Theorem C09_argmax_is_a_key :
   d <> [] -> exists a : A, argmax_first N d = Some a /\ In a (akeys d).
 Proof. exact @argmax_first_in. Qed.
 Print Assumptions C09_argmax_is_a_key.
+
+Theorem C09_predict_is_first_argmax_every_policy_combination :
+  forall (R A G : Type) (N : Num R) (aeqb : A -> A -> bool) (RG : RngOps R G) 
+    (m : (@mab R A G)) (cx : option (@ctxs R)) (orc : (@oracle R A)),
+  c09_applicable (m_imp m) ->
+  out_agree N (snd (step N aeqb RG m (Predict cx orc))) (snd (step N aeqb RG m (PredictExp cx orc))) /\
+  m_rng (fst (step N aeqb RG m (Predict cx orc))) = m_rng (fst (step N aeqb RG m (PredictExp cx orc))).
+Proof. exact @predict_is_argmax_all. Qed.
+Print Assumptions C09_predict_is_first_argmax_every_policy_combination.
+
+Theorem C09_empty_neighbourhood_row_stays_all_nan_add_arm :
+  forall (R A G : Type) (N : Num R) (aeqb : A -> A -> bool) (s : (@nbr R A G)) (a : A)
+    (bz : option (A -> R -> R)),
+  n_kf_newarm0 s = false -> nan_row (n_exp s) -> nan_row (n_exp (nbr_add_arm N aeqb s a bz)).
+Proof. exact @nan_row_add. Qed.
+Print Assumptions C09_empty_neighbourhood_row_stays_all_nan_add_arm.
+
+Theorem C09_empty_neighbourhood_row_all_nan_at_construction :
+  forall (R A G : Type) (k : nkind) (m : metric) (p : option (list R)) (arms : list A) (l : (@lp R A G)),
+  nan_row (n_exp (nbr_init k m p false arms l)).
+Proof. exact @nan_row_init. Qed.
+Print Assumptions C09_empty_neighbourhood_row_all_nan_at_construction.
 
 Theorem C09_argmax_attains_the_maximum :
   forall (R A : Type) (N : Num R),
